@@ -7,6 +7,9 @@ CLAIMED = {
  'C19': dict(engine='symx+z3-direct', design='4/C19', technique='z3 LIA queries on the real sym.fuse/add_charges executed over unbounded symbolic integer charges (object arrays of z3 Int terms); solver-driven exhaustive path exploration of Leg.__post_init__/conj over a box of symbolic integer arguments',
    text='Group axioms (reference law, canonical range, regrouping for every split, commutativity, zero identity, inverse, idempotence, add_charges==fuse, row independence) are decided as unsat LIA queries for UNBOUNDED integer charges and symbolic signatures, m<=4 (thorough 5) fused charges, for all 7 shipped symmetry classes. Leg acceptance/sorting/conj are decided on every path of the real constructor over a finite box of symbolic integer arguments (in and just outside the valid domain): solver-driven enumeration, exhaustive within the box.',
    note='Trusted: z3; NumPy object-array matmul/mod semantics. int64 modelled as mathematical integers. add_charges runs with an in-process np.array shim that keeps symbolic ints. Outside: Leg arguments beyond the box; user-defined symmetries.'),
+ 'C20': dict(engine='symx', design='4/C20', technique='symbolic execution of the real geometry classes on z3 Int site coordinates/shifts/labels (unbounded), lattice dims and boundary enumerated; LIA unsat queries per path; pattern labels fork on equality (one path per set partition)',
+   text='For every SquareLattice dims<=5x5 x boundary (complete for the stated bound), Checkerboard, both Triangular variants: nn_site/None-iff-leaves-open-direction/mutual inverse, site2index oracle + invariance under exactly the lattice periods, coverage and uniqueness of sites()/bonds(), nn_bond_dirn, and f_ordered total-order axioms are decided by z3 for UNBOUNDED integer sites and shifts. RectangularUnitcell accept/reject is decided for fully symbolic labels (<=4 values) on shapes up to 2x3 (thorough 3x3, 2x4) - one path per label-equality pattern - plus concrete 4x4 families. Lattice container get/set/patch explored over a symbolic site window.',
+   note='Trusted: z3 LIA. Open-boundary sites assumed on the lattice. Cylinder seam bonds are exempt from f-ordering (cannot be both lattice- and f-ordered). Outside: 4x4 patterns with symbolic labels; dims beyond the bounds.'),
 }
 NA = {
  'C09': 'DMRG: outcome of iterated floating-point Krylov eigen-solves and LAPACK sweeps; a contract stub for eigs would assume the conclusion, chained LAPACK contracts need non-linear ideal reasoning z3/cvc5 do not finish (DESIGN 5)',
